@@ -129,6 +129,18 @@ pub fn run(rep: &mut Rep) {
                     rep.add("sessions_established_through_authorize", 1);
                 }
                 let mut sim = session_via(rep.seed, m, Some(r), own_limit, via_auth);
+                // three cases in five run over a transport that takes a packet in many pieces (1 byte / 16 bytes per call, or
+                // 5 bytes with Pending in between): "written in full" and "not one byte" are judged all the same
+                let plan = match idx % 5 {
+                    1 => WritePlan::Max(1),
+                    2 => WritePlan::Max(16),
+                    3 => WritePlan::MaxPendingAlt(5),
+                    _ => WritePlan::All,
+                };
+                if plan != WritePlan::All {
+                    rep.add("cases_over_a_transport_taking_packets_in_pieces", 1);
+                }
+                sim.writer.0.borrow_mut().plan = plan;
                 // a message is processed first so that a "before" snapshot exists
                 let warm = sim.start_op(0, OpSpec::Publish(PubSpec::simple(0, "w", b"")));
                 sim.settle();
